@@ -1,4 +1,6 @@
 import Aoe.Lemmas.Versions
+import Aoe.Lemmas.Creatable
+import Aoe.Props.C15
 import Aoe.Generated.Ob
 /-!
 # C16 – effect and condition constructors honour their name, arguments and defaults
@@ -213,6 +215,65 @@ theorem helper_spec {c : Ctx} {ms : List EnumMember} {hs : List Helper} {h : Hel
     · intro k v hk hne ha; exact harg k v hk hne (by rw [hfw]; exact ha)
     · intro k hk hne ha; exact hdef k hk hne (by rw [hfw]; exact ha)
 
+/-- the constructors hand every ordinary keyword through unchanged (`special` lists the few attributes they
+normalise: selected ids, the armour/attack group, the area corners, the location reference, `item_id`) -/
+theorem other_attributes_stored {c : Ctx} {kw o : Dict} (hinit : ∀ k ∈ dkeys kw, k ∈ c.sig.initParams)
+    (h : construct c kw = .ok o) {k : Nat} (hk : k ∉ special c.names) : dget o k = dget kw k :=
+  construct_other_attrs hinit h hk
+
+/-- an area whose corners are ordered and both set (or both unset) is stored as given -/
+theorem ordered_area_kept {x y : Int} (hxy : x ≤ y) (hfill : ¬ (x ≠ -1 ∧ y = -1)) :
+    coordAxis (.int x) (.int y) = .ok (.int x, .int y) := coordAxis_id hxy hfill
+
+/-- **C16 on the returned component** (well-formed table, well-formed helper): the component a helper returns has the
+type the helper is named after, and every attribute outside `special` holds the supplied argument of the same name,
+or the version's default for that type when none was supplied; it is appended last and the display order is extended
+with its index. -/
+theorem helper_component_spec {c : Ctx} {ms : List EnumMember} {hs : List Helper} {h : Helper}
+    (hOK : helperOK c.sig ms hs h = true) {t : Table} (hT : tableOK c t = true) {args : Dict} {tr tr' : Trig} {o : Dict}
+    (hrun : runHelper c ms t h args tr = .ok (o, tr')) :
+    ∃ m d, memberNamed ms h.const = some m ∧
+      (h.deprecated = false → (stripUnderscore h.nameChars).map upperCode = m.nameChars) ∧
+      defaultsFor t m.value = some d ∧
+      (c.sig.typeKey ∉ special c.names → dget o c.sig.typeKey = some (.int m.value)) ∧
+      (∀ k v, k ∈ dkeys d → k ∉ special c.names → k ≠ c.sig.typeKey → argOf args k = some v → dget o k = some v) ∧
+      (∀ k, k ∈ dkeys d → k ∉ special c.names → k ≠ c.sig.typeKey → argOf args k = none → dget o k = dget d k) ∧
+      tr'.comps = tr.comps ++ [o] ∧
+      (tr.order.Perm (List.range tr.comps.length) → tr'.order = tr.order ++ [tr.comps.length]) := by
+  obtain ⟨m, d, kw, hm, hname, hd, hkeys, htype, harg, hdef, hc, happ, hord⟩ := helper_spec hOK hrun
+  -- the merged defaults come from two entries of the table
+  have hd' := hd
+  unfold defaultsFor at hd'
+  cases h0 : t.find? 0 with
+  | none => simp [h0] at hd'
+  | some e0 =>
+    cases h1 : t.find? m.value with
+    | none => simp [h0, h1] at hd'
+    | some e =>
+      simp only [h0, h1, Option.some.injEq] at hd'
+      have he : e ∈ t := (find?_some h1).1
+      obtain ⟨e0', h0', -, -, -, K0, KE, htk, -⟩ := C15.tableOK_entry hT he
+      rw [h0] at h0'
+      cases h0'
+      have hinit : ∀ k ∈ dkeys kw, k ∈ c.sig.initParams := by
+        intro k hk
+        rw [hkeys, ← hd'] at hk
+        rcases mem_dkeys_dmerge.1 hk with hk | hk
+        · exact (K0 k hk).2
+        · exact (KE k hk).2
+      have htkd : c.sig.typeKey ∈ dkeys d := by
+        rw [← hd']; exact mem_dkeys_dmerge.2 (Or.inl htk)
+      refine ⟨m, d, hm, hname, hd, ?_, ?_, ?_, happ, hord⟩
+      · intro hs
+        rw [other_attributes_stored hinit hc hs]
+        exact htype _ htkd rfl
+      · intro k v hk hs hne ha
+        rw [other_attributes_stored hinit hc hs]
+        exact harg k v hk hne ha
+      · intro k hk hs hne ha
+        rw [other_attributes_stored hinit hc hs]
+        exact hdef k hk hne ha
+
 /-! ## the regenerated helper tables -/
 
 /-- every `new_effect.*` helper of the repository satisfies `helperOK`, every `EffectId` member has exactly one
@@ -241,6 +302,46 @@ theorem effect_helper_spec {vt : VersionTable} (_ : vt ∈ Versions.all) {h : He
       construct (Helpers.ctxE w) kw = .ok o ∧ tr'.comps = tr.comps ++ [o] ∧
       (tr.order.Perm (List.range tr.comps.length) → tr'.order = tr.order ++ [tr.comps.length]) :=
   helper_spec (c := Helpers.ctxE w) (helper_ok_of_mem helpers_ok_effects hh) hrun
+
+/-- the type key is not one of the attributes the constructors normalise (table fact) -/
+theorem typeKey_plain : Helpers.effectSig.typeKey ∉ special Helpers.attrNames ∧
+    Helpers.conditionSig.typeKey ∉ special Helpers.attrNames := by decide +kernel
+
+/-- **C16 for every effect helper of the repository in every shipped version, on the returned component** -/
+theorem effect_helper_component {vt : VersionTable} (hv : vt ∈ Versions.all) {h : Helper} (hh : h ∈ Helpers.effectHelpers)
+    (w : Nat) {args : Dict} {tr tr' : Trig} {o : Dict}
+    (hrun : runHelper (Helpers.ctxE w) Helpers.effectMembers vt.effects h args tr = .ok (o, tr')) :
+    ∃ m d, memberNamed Helpers.effectMembers h.const = some m ∧
+      (h.deprecated = false → (stripUnderscore h.nameChars).map upperCode = m.nameChars) ∧
+      defaultsFor vt.effects m.value = some d ∧
+      dget o Helpers.effectSig.typeKey = some (.int m.value) ∧
+      (∀ k v, k ∈ dkeys d → k ∉ special Helpers.attrNames → k ≠ Helpers.effectSig.typeKey →
+          argOf args k = some v → dget o k = some v) ∧
+      (∀ k, k ∈ dkeys d → k ∉ special Helpers.attrNames → k ≠ Helpers.effectSig.typeKey →
+          argOf args k = none → dget o k = dget d k) ∧
+      tr'.comps = tr.comps ++ [o] ∧
+      (tr.order.Perm (List.range tr.comps.length) → tr'.order = tr.order ++ [tr.comps.length]) := by
+  have hw : tableOK (Helpers.ctxE w) vt.effects = tableOK (Helpers.ctxE 16) vt.effects := rfl
+  obtain ⟨m, d, a1, a2, a3, a4, a5, a6, a7, a8⟩ := helper_component_spec (c := Helpers.ctxE w)
+    (helper_ok_of_mem helpers_ok_effects hh) (hw ▸ (C15.version_parts hv).2.1) hrun
+  exact ⟨m, d, a1, a2, a3, a4 typeKey_plain.1, a5, a6, a7, a8⟩
+
+theorem condition_helper_component {vt : VersionTable} (hv : vt ∈ Versions.all) {h : Helper}
+    (hh : h ∈ Helpers.conditionHelpers) {args : Dict} {tr tr' : Trig} {o : Dict}
+    (hrun : runHelper Helpers.ctxC Helpers.conditionMembers vt.conditions h args tr = .ok (o, tr')) :
+    ∃ m d, memberNamed Helpers.conditionMembers h.const = some m ∧
+      (h.deprecated = false → (stripUnderscore h.nameChars).map upperCode = m.nameChars) ∧
+      defaultsFor vt.conditions m.value = some d ∧
+      dget o Helpers.conditionSig.typeKey = some (.int m.value) ∧
+      (∀ k v, k ∈ dkeys d → k ∉ special Helpers.attrNames → k ≠ Helpers.conditionSig.typeKey →
+          argOf args k = some v → dget o k = some v) ∧
+      (∀ k, k ∈ dkeys d → k ∉ special Helpers.attrNames → k ≠ Helpers.conditionSig.typeKey →
+          argOf args k = none → dget o k = dget d k) ∧
+      tr'.comps = tr.comps ++ [o] ∧
+      (tr.order.Perm (List.range tr.comps.length) → tr'.order = tr.order ++ [tr.comps.length]) := by
+  obtain ⟨m, d, a1, a2, a3, a4, a5, a6, a7, a8⟩ := helper_component_spec (c := Helpers.ctxC)
+    (helper_ok_of_mem helpers_ok_conditions hh) (C15.version_parts hv).2.2 hrun
+  exact ⟨m, d, a1, a2, a3, a4 typeKey_plain.2, a5, a6, a7, a8⟩
 
 theorem condition_helper_spec {vt : VersionTable} (_ : vt ∈ Versions.all) {h : Helper} (hh : h ∈ Helpers.conditionHelpers)
     {args : Dict} {tr tr' : Trig} {o : Dict}
